@@ -1,6 +1,7 @@
 (** C14 - built-in error messages name the right place, value and alternatives. *)
 From Deserr Require Import Base Pointer Kinds Value Prog Utf8 Scalars Types Deser Monitors C04Defs Messages.
-From Deserr.proofs Require Import C14Proofs PathProofs C04Proofs.
+From Deserr Require Import DidYouMean Json.
+From Deserr.proofs Require Import C14Proofs PathProofs C04Proofs MsgContents.
 Local Open Scope string_scope.
 
 (** JsonError and QueryParamError always answer Break and return errors handed to them
@@ -85,3 +86,128 @@ Print Assumptions c14_path_roundtrip.
 Print Assumptions c14_path_injective.
 Print Assumptions c14_rendered_report_is_true.
 Print Assumptions c14_path_qp_roundtrip.
+
+(** Text level: what each message contains ([substr a s]: s is some text, then a, then some
+    text). Below the root every message contains the path from the root between backquotes (for
+    query parameters the rendering without the leading dot); at the root the location text is
+    empty. *)
+Theorem c14_contents_path : forall ftext dtext k l, l <> Origin ->
+  substr ("`" ++ path_json l ++ "`") (json_msg ftext k l) /\ substr ("`" ++ path_qp l ++ "`") (qp_msg ftext dtext k l).
+Proof. intros ftext dtext k l Hl. split; [exact (json_msg_has_path ftext k l Hl)|exact (qp_msg_has_path ftext dtext k l Hl)]. Qed.
+
+Theorem c14_contents_root : forall art, location_json Origin art = "" /\ location_qp Origin art = "".
+Proof. intros art. split; reflexivity. Qed.
+
+(** per kind: the offending value as JSON text with the expected kinds; the missing field; the
+    unknown key / value, the suggestion text and every accepted alternative; both lengths and the
+    sequence; the detail message *)
+Theorem c14_contents_value : forall ftext actual accepted l,
+  substr (value_description_json ftext actual) (json_msg ftext (IncorrectValueKind actual accepted) l)
+  /\ substr (describe accepted) (json_msg ftext (IncorrectValueKind actual accepted) l).
+Proof. exact json_msg_value. Qed.
+
+Theorem c14_contents_value_quoted : forall ftext v,
+  kind_json (from_value v) <> KNull ->
+  substr ("`" ++ json_text ftext (from_value v) ++ "`") (value_description_json ftext v).
+Proof. exact value_description_quotes. Qed.
+
+Theorem c14_contents_missing : forall ftext f l, substr ("`" ++ f ++ "`") (json_msg ftext (MissingField f) l).
+Proof. exact json_msg_missing. Qed.
+
+Theorem c14_contents_unknown_key : forall ftext key accepted l,
+  substr ("`" ++ key ++ "`") (json_msg ftext (UnknownKey key accepted) l)
+  /\ substr (did_you_mean key accepted) (json_msg ftext (UnknownKey key accepted) l)
+  /\ forall a, In a accepted -> substr ("`" ++ a ++ "`") (json_msg ftext (UnknownKey key accepted) l).
+Proof. exact json_msg_unknown_key. Qed.
+
+Theorem c14_contents_unknown_value : forall ftext v accepted l,
+  substr ("`" ++ v ++ "`") (json_msg ftext (UnknownValue v accepted) l)
+  /\ substr (did_you_mean v accepted) (json_msg ftext (UnknownValue v accepted) l)
+  /\ forall a, In a accepted -> substr ("`" ++ a ++ "`") (json_msg ftext (UnknownValue v accepted) l).
+Proof. exact json_msg_unknown_value. Qed.
+
+Theorem c14_contents_len : forall ftext actual expected l,
+  let m := json_msg ftext (BadSequenceLen actual expected) l in
+  substr ("Received " ++ dec_N (N.of_nat (List.length actual)) ++ " elements") m
+  /\ substr ("instead of " ++ dec_N expected ++ ":") m
+  /\ substr ("`" ++ json_text ftext (from_value (VSeq actual)) ++ "`") m.
+Proof. exact json_msg_len. Qed.
+
+Theorem c14_contents_detail : forall ftext msg l, substr msg (json_msg ftext (Unexpected msg) l).
+Proof. exact json_msg_detail. Qed.
+
+(** the suggestion text is empty or names one accepted alternative (which one: C18) *)
+Theorem c14_contents_suggestion : forall key accepted,
+  did_you_mean key accepted = "" \/ exists a, In a accepted /\ did_you_mean key accepted = "did you mean `" ++ a ++ "`? ".
+Proof. exact suggestion_text. Qed.
+
+Check c14_contents_path : forall ftext dtext k l, l <> Origin ->
+  substr ("`" ++ path_json l ++ "`") (json_msg ftext k l) /\ substr ("`" ++ path_qp l ++ "`") (qp_msg ftext dtext k l).
+Check c14_contents_unknown_key : forall ftext key accepted l,
+  substr ("`" ++ key ++ "`") (json_msg ftext (UnknownKey key accepted) l)
+  /\ substr (did_you_mean key accepted) (json_msg ftext (UnknownKey key accepted) l)
+  /\ forall a, In a accepted -> substr ("`" ++ a ++ "`") (json_msg ftext (UnknownKey key accepted) l).
+Check c14_contents_len : forall ftext actual expected l,
+  let m := json_msg ftext (BadSequenceLen actual expected) l in
+  substr ("Received " ++ dec_N (N.of_nat (List.length actual)) ++ " elements") m
+  /\ substr ("instead of " ++ dec_N expected ++ ":") m
+  /\ substr ("`" ++ json_text ftext (from_value (VSeq actual)) ++ "`") m.
+
+(** the same ingredients in the QueryParamError message *)
+Theorem c14_contents_qp : forall ftext dtext l,
+    (forall actual accepted, substr (value_description_qp dtext actual) (qp_msg ftext dtext (IncorrectValueKind actual accepted) l))
+    /\ (forall f, substr ("`" ++ f ++ "`") (qp_msg ftext dtext (MissingField f) l))
+    /\ (forall key accepted, substr ("`" ++ key ++ "`") (qp_msg ftext dtext (UnknownKey key accepted) l)
+                             /\ substr (did_you_mean key accepted) (qp_msg ftext dtext (UnknownKey key accepted) l)
+                             /\ forall a, In a accepted -> substr ("`" ++ a ++ "`") (qp_msg ftext dtext (UnknownKey key accepted) l))
+    /\ (forall v accepted, substr ("`" ++ v ++ "`") (qp_msg ftext dtext (UnknownValue v accepted) l)
+                           /\ substr (did_you_mean v accepted) (qp_msg ftext dtext (UnknownValue v accepted) l)
+                           /\ forall a, In a accepted -> substr ("`" ++ a ++ "`") (qp_msg ftext dtext (UnknownValue v accepted) l))
+    /\ (forall actual expected,
+          substr ("Received " ++ dec_N (N.of_nat (List.length actual)) ++ " elements") (qp_msg ftext dtext (BadSequenceLen actual expected) l)
+          /\ substr ("instead of " ++ dec_N expected ++ ":") (qp_msg ftext dtext (BadSequenceLen actual expected) l)
+          /\ substr ("`" ++ json_text ftext (from_value (VSeq actual)) ++ "`") (qp_msg ftext dtext (BadSequenceLen actual expected) l))
+    /\ (forall msg, substr msg (qp_msg ftext dtext (Unexpected msg) l)).
+Proof. exact qp_msg_contents. Qed.
+
+Check c14_contents_root : forall art, location_json Origin art = "" /\ location_qp Origin art = "".
+Check c14_contents_value : forall ftext actual accepted l,
+  substr (value_description_json ftext actual) (json_msg ftext (IncorrectValueKind actual accepted) l)
+  /\ substr (describe accepted) (json_msg ftext (IncorrectValueKind actual accepted) l).
+Check c14_contents_value_quoted : forall ftext v,
+  kind_json (from_value v) <> KNull ->
+  substr ("`" ++ json_text ftext (from_value v) ++ "`") (value_description_json ftext v).
+Check c14_contents_missing : forall ftext f l, substr ("`" ++ f ++ "`") (json_msg ftext (MissingField f) l).
+Check c14_contents_unknown_value : forall ftext v accepted l,
+  substr ("`" ++ v ++ "`") (json_msg ftext (UnknownValue v accepted) l)
+  /\ substr (did_you_mean v accepted) (json_msg ftext (UnknownValue v accepted) l)
+  /\ forall a, In a accepted -> substr ("`" ++ a ++ "`") (json_msg ftext (UnknownValue v accepted) l).
+Check c14_contents_detail : forall ftext msg l, substr msg (json_msg ftext (Unexpected msg) l).
+Check c14_contents_suggestion : forall key accepted,
+  did_you_mean key accepted = "" \/ exists a, In a accepted /\ did_you_mean key accepted = "did you mean `" ++ a ++ "`? ".
+Check c14_contents_qp : forall ftext dtext l,
+    (forall actual accepted, substr (value_description_qp dtext actual) (qp_msg ftext dtext (IncorrectValueKind actual accepted) l))
+    /\ (forall f, substr ("`" ++ f ++ "`") (qp_msg ftext dtext (MissingField f) l))
+    /\ (forall key accepted, substr ("`" ++ key ++ "`") (qp_msg ftext dtext (UnknownKey key accepted) l)
+                             /\ substr (did_you_mean key accepted) (qp_msg ftext dtext (UnknownKey key accepted) l)
+                             /\ forall a, In a accepted -> substr ("`" ++ a ++ "`") (qp_msg ftext dtext (UnknownKey key accepted) l))
+    /\ (forall v accepted, substr ("`" ++ v ++ "`") (qp_msg ftext dtext (UnknownValue v accepted) l)
+                           /\ substr (did_you_mean v accepted) (qp_msg ftext dtext (UnknownValue v accepted) l)
+                           /\ forall a, In a accepted -> substr ("`" ++ a ++ "`") (qp_msg ftext dtext (UnknownValue v accepted) l))
+    /\ (forall actual expected,
+          substr ("Received " ++ dec_N (N.of_nat (List.length actual)) ++ " elements") (qp_msg ftext dtext (BadSequenceLen actual expected) l)
+          /\ substr ("instead of " ++ dec_N expected ++ ":") (qp_msg ftext dtext (BadSequenceLen actual expected) l)
+          /\ substr ("`" ++ json_text ftext (from_value (VSeq actual)) ++ "`") (qp_msg ftext dtext (BadSequenceLen actual expected) l))
+    /\ (forall msg, substr msg (qp_msg ftext dtext (Unexpected msg) l)).
+
+Print Assumptions c14_contents_path.
+Print Assumptions c14_contents_root.
+Print Assumptions c14_contents_value.
+Print Assumptions c14_contents_value_quoted.
+Print Assumptions c14_contents_missing.
+Print Assumptions c14_contents_unknown_key.
+Print Assumptions c14_contents_unknown_value.
+Print Assumptions c14_contents_len.
+Print Assumptions c14_contents_detail.
+Print Assumptions c14_contents_suggestion.
+Print Assumptions c14_contents_qp.
